@@ -22,7 +22,9 @@ Periods == {1, 5, 16, 31}
 
 ASSUME LawKeyTab(12)
 \* the concrete key tables, for the renderer (so that it has no copy of its own)
+ASSUME LawAltTab
 ASSUME PrintT(<<"TABLE", ToJson([kind \in Kinds |-> KeyTab(kind)])>>)
+ASSUME PrintT(<<"ALTTABLE", ToJson([kind \in Kinds |-> AltTab(kind)])>>)
 
 Elems(rs) == [i \in Idx(rs) |-> <<rs[i], i>>]
 Tags(es) == [i \in Idx(es) |-> es[i][2]]
